@@ -7,8 +7,10 @@
    SqlAbs (tables = stored events of the history), SqlSort, SqlQuery (query
    = specification), SqlC14 (idempotence, faults, reopen), SqlOracle (the
    boolean oracle reflects stored / deleted / live), SqlMerge (the merge test
-   of the oracle reflects the merge statement: [query_specb_spec]). *)
-From Moc Require Export Base Match MatchProofs Sql SqlSpec SqlLemmas SqlInv SqlAbs SqlSort SqlQuery SqlC14 SqlOracle SqlMerge.
+   of the oracle reflects the merge statement: [query_specb_spec]), SqlHashed /
+   SqlHashedProofs (the store keyed by hash values refines the model under
+   [no_collision]). *)
+From Moc Require Export Base Match MatchProofs Sql SqlSpec SqlLemmas SqlInv SqlAbs SqlSort SqlQuery SqlC14 SqlOracle SqlMerge SqlHashed SqlHashedProofs.
 From Moc.Gen Require Import GenMsg GenSql.
 Open Scope Z_scope.
 
@@ -17,7 +19,9 @@ Definition gate_valid (es : list event) : Prop := Forall (fun e => gate_valid_ev
 
 (** C06 query_correct over batch histories, core form.  [no_collision] is the
     condition under which the model (rows keyed by hash pre-images) is
-    faithful; it is carried by the statement and not otherwise used. *)
+    faithful to the store keyed by hash values: it is not needed for the
+    statement about the model itself, and it is what transfers the statement
+    to the hashed store ([hashed_store_refines], [hashed_query_correct]). *)
 Theorem query_correct_history
   (xx : Z -> str -> Z) (md5 : str -> str) seed (h : list (list event)) fs maxLimit :
   no_collision xx md5 seed (concat h) fs ->
